@@ -21,8 +21,16 @@
 //!   get <s0> <s1> | getu <s0> <s1>          (member keys: the real `get(key)`; else get_by_sig) -> ok <v>
 //!   contains|containsu|index <s0> <s1>                                         -> ok <0|1>
 //!   fp <b> <probes>     false-positive count over non-member keys vs 6-sigma band -> ok in-band | ok out-of-band
-//!   solve <[s0,s1,val,...]>  unsharded function builds: peel + assign recomputed by the model;
+//!   solve [idx|high|low] <[s0,s1,val,...]>  unsharded function builds: peel + assign recomputed by
+//!                       the model with the named peeler (idx = peel_by_index under lge_shard, the
+//!                       default; high / low = peel_by_sig_vals_{high,low}_mem); the generator names the
+//!                       peeler the real build used (`peel_mode`) and, for small n, also the other two
+//!                       (all three visit the vertices in the same order, so the cells coincide);
 //!                       impl: real cells if the (naively computed) 2-core is empty -> ok peeled <[cells]> | ok core <k>
+//!   solve lge:<b>:<d> <[..]>  the whole of lge_shard (peel_by_index, system of the unpeeled edges,
+//!                       lazy Gaussian elimination, assignment) on the shard in the order the worker
+//!                       sees it: keys bucketed by the top b = log2_buckets bits of sig[0], sorted by
+//!                       signature if d = check_dups, then count_sort; impl: the real cells -> ok peeled <[cells]>
 //!   qbig <count>        sampled member queries of a big build (no parts)       -> ok <number wrong>
 //! The naive oracle knows the key/value lists and expects: `ok` for duplicate-free builds,
 //! `err` for duplicates with check_dups / injected faults that are reached, the stored value
@@ -1472,10 +1480,26 @@ impl St {
                 // peeling + assignment of an unsharded function build, recomputed by the model:
                 // if the 2-core of the hypergraph is empty (naive computation below) the real
                 // cells must be exactly what the model's peeler + assign produce from zeros
-                if t.len() != 2 || inst.is_filter() || inst.dims().1 != 1 {
+                // `lge:<log2_buckets>:<check_dups>`: the whole of lge_shard, cells whatever the core
+                let lge_tok = |m: &str| -> bool {
+                    let p: Vec<&str> = m.split(':').collect();
+                    p.len() == 3
+                        && p[0] == "lge"
+                        && p[1].parse::<u32>().map(|b| b <= 16).unwrap_or(false)
+                        && p[2].parse::<u32>().is_ok()
+                };
+                let (mode_ok, lst) = match t.len() {
+                    2 => (true, t[1]),
+                    3 => (matches!(t[1], "idx" | "high" | "low") || lge_tok(t[1]), t[2]),
+                    _ => (false, ""),
+                };
+                let is_lge = t.len() == 3 && t[1].starts_with("lge:");
+                if !mode_ok {
+                    "bad-op".into()
+                } else if inst.is_filter() || inst.dims().1 != 1 {
                     "err kind".into()
                 } else {
-                    let inner = t[1].trim_start_matches('[').trim_end_matches(']');
+                    let inner = lst.trim_start_matches('[').trim_end_matches(']');
                     let nums: Vec<u64> = if inner.is_empty() {
                         vec![]
                     } else {
@@ -1489,7 +1513,13 @@ impl St {
                         .collect();
                     let core = naive_core_size(nv, &edges);
                     ctx.stat(if core == 0 { "solve_peeled" } else { "solve_core" });
-                    if core == 0 {
+                    if t.len() == 3 {
+                        ctx.stat(&format!("solve_named:{}", if is_lge { "lge" } else { t[1] }));
+                        if is_lge {
+                            ctx.stat(if core == 0 { "solve_lge_peeled" } else { "solve_lge_core" });
+                        }
+                    }
+                    if core == 0 || is_lge {
                         format!("ok peeled {}", fmt_list(inst.parts().cells.iter()))
                     } else {
                         format!("ok core {}", core)
@@ -1679,6 +1709,40 @@ struct Opts {
     big_sample: usize,
     fp_probes: u64,
     unaligned_every: usize,
+    /// export `parts` and issue `solve` whatever `n` is (directed signature-peeler cases)
+    force_parts: bool,
+}
+
+/// `log2_buckets` of the signature store as `build_loop` fixes it (`None`: depends on the
+/// floating-point `sharding_high_bits`, not re-derived here)
+fn log2_buckets_of(spec: &Spec) -> Option<u32> {
+    match spec.hint {
+        None => Some(spec.lb.unwrap_or(8)),
+        Some(h) => {
+            if spec.lg == "noshards" {
+                Some(0)
+            } else if h <= 800_000 {
+                Some(Ord::max(h / 50_000, 1).ilog2())
+            } else {
+                None
+            }
+        }
+    }
+}
+
+/// which peeler `try_build_from_shard_iter` selects (`lge` as returned by `set_up_graphs` of the
+/// three fuse logics; `num_threads = num_shards.min(max_num_threads)`)
+fn peel_mode(spec: &Spec, n: usize, num_shards: usize) -> &'static str {
+    let lge = if spec.lg == "noshards" { n <= 100_000 } else { n <= 800_000 };
+    if lge {
+        "idx"
+    } else if spec.lm == Some(true)
+        || (spec.lm.is_none() && Ord::min(num_shards, spec.th) > 3 && num_shards > 2)
+    {
+        "low"
+    } else {
+        "high"
+    }
 }
 
 fn run_case(ctx: &mut Ctx, spec: &Spec, o: &Opts) {
@@ -1721,10 +1785,13 @@ fn run_case(ctx: &mut Ctx, spec: &Spec, o: &Opts) {
         return;
     }
     let n = spec.n;
-    if n <= PARTS_MAX_N {
+    if n <= PARTS_MAX_N || o.force_parts {
         let pl = parts_line(spec, &st.inst.as_ref().unwrap().parts());
         st.exec(ctx, &pl, false);
-        if !spec.filter && n <= SOLVE_MAX_N && st.inst.as_ref().unwrap().dims().1 == 1 {
+        if !spec.filter
+            && (n <= SOLVE_MAX_N || o.force_parts)
+            && st.inst.as_ref().unwrap().dims().1 == 1
+        {
             let vals = spec.values();
             let mut flat: Vec<u64> = Vec::with_capacity(3 * n);
             for i in 0..n {
@@ -1733,7 +1800,28 @@ fn run_case(ctx: &mut Ctx, spec: &Spec, o: &Opts) {
                 flat.push(s1);
                 flat.push(vals[i]);
             }
-            st.exec(ctx, &format!("solve {}", fmt_list(flat.iter())), false);
+            // the peeler the real build used; for small instances also the other two
+            let mode = peel_mode(spec, st.inst.as_ref().unwrap().len(), 1);
+            ctx.stat(&format!("solve_real_mode:{}", mode));
+            let lst = fmt_list(flat.iter());
+            st.exec(ctx, &format!("solve {} {}", mode, lst), false);
+            // lge_shard in full (equation order = order of the shard as the worker sees it)
+            if mode == "idx" && spec.dd.is_empty() {
+                if let Some(b) = log2_buckets_of(spec) {
+                    st.exec(
+                        ctx,
+                        &format!("solve lge:{}:{} {}", b, b01(spec.dups), lst),
+                        false,
+                    );
+                }
+            }
+            if n <= 300 {
+                for m in ["idx", "high", "low"] {
+                    if m != mode {
+                        st.exec(ctx, &format!("solve {} {}", m, lst), false);
+                    }
+                }
+            }
         }
     }
     st.exec(ctx, "len", false);
@@ -1858,6 +1946,7 @@ pub fn run(ctx: &mut Ctx) {
         big_sample: if thorough { 20000 } else { 3000 },
         fp_probes: 0,
         unaligned_every: 3,
+        force_parts: false,
     };
     let default_func = combo_of("func", "vec", "usize", "size", "bfv", 2, "shards");
     let box_func = combo_of("func", "vec", "usize", "64", "box", 2, "shards");
@@ -1888,6 +1977,7 @@ pub fn run(ctx: &mut Ctx) {
             big_sample: 0,
             fp_probes: if c.0 == "filter" && c.2 != "u8" { 1 << 12 } else { 0 },
             unaligned_every: 1,
+            force_parts: false,
         };
         run_case(ctx, &s, &oo);
     }
@@ -1962,6 +2052,7 @@ pub fn run(ctx: &mut Ctx) {
             big_sample: 2000,
             fp_probes: Ord::min(1u64 << Ord::min(b + 8, 20), 1 << 20),
             unaligned_every: 5,
+            force_parts: false,
         };
         for (k, &b) in [1u32, 2, 3, 5, 8, 13, 16, 24, 32, 64].iter().enumerate() {
             let c = combo_of("filter", "vec", "usize", "64", "bfv", 2, "shards");
@@ -2125,6 +2216,37 @@ pub fn run(ctx: &mut Ctx) {
         }
     }
 
+    // H. the signature peelers on the real code: unsharded fuse logic above 100 000 keys has
+    //    lge = false, so `low_mem` selects peel_by_sig_vals_{high,low}_mem; cells exported and
+    //    re-solved by the model with the same peeler
+    {
+        let ho = Opts {
+            big_sample: 500,
+            fp_probes: 0,
+            unaligned_every: 50,
+            force_parts: true,
+        };
+        let mut hs: Vec<(usize, Combo, Option<bool>, usize)> = vec![
+            (100_001, ns1_func, Some(true), 1),
+            (100_001, ns1_func, None, 8),
+        ];
+        if thorough {
+            hs.push((100_001, ns2_func, Some(true), 2));
+            hs.push((100_001, ns2_func, Some(false), 1));
+            hs.push((131_072, ns1_func, Some(true), 8));
+            hs.push((150_000, ns1_func, Some(false), 2));
+        }
+        for (k, (n, c, lm, th)) in hs.into_iter().enumerate() {
+            let mut s = base_spec(&c, n);
+            s.lm = lm;
+            s.th = th;
+            s.vs = Vs::Rnd(40 + k as u64);
+            s.ks = if k % 2 == 0 { Ks::Seq(7 * k as u64) } else { Ks::Rnd(90 + k as u64) };
+            s.seed = k as u64;
+            run_case(ctx, &s, &ho);
+        }
+    }
+
     // ---------------- seeded random part ----------------
     let small_ns: Vec<usize> = if thorough {
         (0..=3000).collect()
@@ -2148,6 +2270,7 @@ pub fn run(ctx: &mut Ctx) {
             big_sample: 0,
             fp_probes: if c.0 == "filter" && c.2 != "u8" && ctx.rng.chance(1, 4) { 1 << 12 } else { 0 },
             unaligned_every: 2,
+            force_parts: false,
         };
         run_case(ctx, &s, &oo);
     }
